@@ -145,7 +145,8 @@ def judge(case, part):
         import cutplace
 
         try:
-            rows = harness.cid_rows(decl["preset"], [decl], allowed=decl.get("allowed"), line_delimiter="lf")
+            # in the CID the allowed range is written with quoted characters where its limits are letters or digits
+            rows = harness.cid_rows(decl["preset"], [decl], allowed=decl.get("allowed"), line_delimiter="lf", allowed_quoted=True)
             cid = harness.make_cid(rows)
             text, usable = c02.data_text(decl, [c for c in case["cells"] if not any(ch in c for ch in "\x0b\x0c\x1c\x1d\x1e\x85\u2028\u2029\x00")])
             events = list(cutplace.rows(cid, harness.NamedStringIO(text, "guards.txt"), on_error="yield"))
@@ -171,7 +172,7 @@ def judge(case, part):
 
 def all_cases(tier="quick"):
     cases = []
-    for field_type, (rule, payload, code_range) in TYPES.items():
+    for field_type, (rule, payload, code_range) in list(TYPES.items()) + [("Text", (None, "ABCD", [65, 90]))]:
         size = len(payload)
         for preset in ("delimited", "fixed", "excel", "ods") + (("delimited_de", "fixed_de") if tier == "thorough" else ()):
             fixed = preset.startswith("fixed")
